@@ -33,6 +33,7 @@ import (
 	"github.com/projectcalico/calico/felix/environment"
 	"github.com/projectcalico/calico/felix/generictables"
 	"github.com/projectcalico/calico/felix/ipsets"
+	"github.com/projectcalico/calico/felix/iptables"
 	"github.com/projectcalico/calico/felix/linkaddrs"
 	mocknetlink "github.com/projectcalico/calico/felix/netlinkshim/mocknetlink"
 	"github.com/projectcalico/calico/felix/proto"
@@ -58,6 +59,11 @@ var c44IDs = []types.WorkloadEndpointID{
 }
 
 var c44Names = []string{"cali1", "cali2"}
+
+// c44Names3: two names share the character after the common prefix, so the dispatch tree has a CHILD chain
+// (cali-*-wl-dispatch-1) exactly while both cali1a and cali1b are in use: child dispatch chains appear, disappear and
+// reappear byte-identical along the histories.
+var c44Names3 = []string{"cali1a", "cali1b", "cali2x"}
 
 type c44Ep struct {
 	name string
@@ -204,6 +210,7 @@ type c44Cfg struct {
 	ipvs    bool
 	pol     bool // endpoints carry a tier with a (non-inlined) policy group
 	base    string // name of a prefix applied in New (not counted in the depth bound), see c44Bases
+	names3  bool   // interface names c44Names3 (dispatch tree with a child chain) instead of c44Names
 }
 
 // Base prefixes: shadowing already in place, so that the depth bound is spent on what happens next.
@@ -212,6 +219,9 @@ var c44Bases = map[string][]c44Ev{
 		{kind: "upd", id: 0, ep: c44Ep{"cali1", true}}, {kind: "upd", id: 1, ep: c44Ep{"cali1", true}}, {kind: "flush"}},
 	"three-on-cali1": {
 		{kind: "upd", id: 0, ep: c44Ep{"cali1", true}}, {kind: "upd", id: 1, ep: c44Ep{"cali1", false}}, {kind: "upd", id: 2, ep: c44Ep{"cali1", true}}, {kind: "flush"}},
+	// names3 universe: all three names in use, the child dispatch chain for prefix "cali1" exists
+	"tree3": {
+		{kind: "upd", id: 0, ep: c44Ep{"cali1a", true}}, {kind: "upd", id: 1, ep: c44Ep{"cali1b", true}}, {kind: "upd", id: 2, ep: c44Ep{"cali2x", false}}, {kind: "flush"}},
 	"split": {
 		{kind: "upd", id: 1, ep: c44Ep{"cali1", true}}, {kind: "upd", id: 2, ep: c44Ep{"cali1", true}}, {kind: "upd", id: 0, ep: c44Ep{"cali2", true}}, {kind: "flush"}},
 }
@@ -351,11 +361,18 @@ func (st *c44State) flush(k int) {
 		panic(err)
 	}
 	st.nFlush++
-	for _, n := range c44Names {
+	for _, n := range st.names() {
 		if len(st.claimants(n)) > 1 {
 			st.shadowed = true
 		}
 	}
+}
+
+func (st *c44State) names() []string {
+	if st.cfg.names3 {
+		return c44Names3
+	}
+	return c44Names
 }
 
 func (st *c44State) claimants(name string) []int {
@@ -389,7 +406,7 @@ func (e c44Ev) String() string {
 func c44Enabled(st *c44State, depth int) []c44Ev {
 	var evs []c44Ev
 	for i := 0; i < st.cfg.nIDs; i++ {
-		for _, n := range c44Names {
+		for _, n := range st.names() {
 			for _, up := range []bool{true, false} {
 				ep := c44Ep{n, up}
 				if st.live[i] != nil && *st.live[i] == ep && (!st.cfg.batched || len(st.m.pendingWlEpUpdates) == 0) {
@@ -573,22 +590,76 @@ func (st *c44State) envString() string {
 var c44RefWinners sync.Map // cfg+env -> map[string]int or string (error)
 
 type c44Ref struct {
-	winners map[string]int
-	problem string
+	winners  map[string]int
+	dispatch map[string]string // the dispatch tree (chain name -> rules) a fresh manager programs for this live set
+	problem  string
+}
+
+var c44DispatchRoots = []string{rules.ChainFromWorkloadDispatch, rules.ChainToWorkloadDispatch, rules.ChainDispatchSetEndPointMark,
+	rules.ChainDispatchFromEndPointMark, rules.ChainDispatchToHostEndpoint, rules.ChainDispatchFromHostEndpoint,
+	rules.ChainDispatchToHostEndpointForward, rules.ChainDispatchFromHostEndPointForward}
+
+func c44IsDispatchChain(name string) bool {
+	for _, r := range c44DispatchRoots {
+		if name == r || strings.HasPrefix(name, r+"-") {
+			return true
+		}
+	}
+	return false
+}
+
+// dispatchTree: every dispatch chain (roots and prefix-tree children, workload, endpoint-mark and host-endpoint) in
+// the filter table.
+func (st *c44State) dispatchTree() map[string]string {
+	out := map[string]string{}
+	for n, c := range st.filter.currentChains {
+		if c44IsDispatchChain(n) {
+			out[n] = fmt.Sprint(c.Rules)
+		}
+	}
+	return out
+}
+
+// danglingDispatchTargets: jump/goto targets of dispatch chains that do not exist in the filter table (child
+// dispatch chains and per-endpoint chains are all programmed by the endpoint manager itself).
+func (st *c44State) danglingDispatchTargets() []string {
+	var out []string
+	for n, c := range st.filter.currentChains {
+		if !c44IsDispatchChain(n) {
+			continue
+		}
+		for _, r := range c.Rules {
+			var target string
+			switch a := r.Action.(type) {
+			case iptables.GotoAction:
+				target = a.Target
+			case iptables.JumpAction:
+				target = a.Target
+			}
+			if target == "" {
+				continue
+			}
+			if _, ok := st.filter.currentChains[target]; !ok {
+				out = append(out, n+" -> "+target)
+			}
+		}
+	}
+	sort.Strings(out)
+	return out
 }
 
 // refWinners: which claimant a FRESH manager prefers when it is simply told the live endpoints (one flush per
 // endpoint), in ascending and in descending id order. History-independence of the preferred endpoint means
 // every explored history must agree with it.
 func (st *c44State) refWinners() *c44Ref {
-	key := fmt.Sprintf("%d|%v|%v|%s", st.cfg.nIDs, st.cfg.ipvs, st.cfg.pol, st.envString())
+	key := fmt.Sprintf("%d|%v|%v|%v|%s", st.cfg.nIDs, st.cfg.ipvs, st.cfg.pol, st.cfg.names3, st.envString())
 	if v, ok := c44RefWinners.Load(key); ok {
 		return v.(*c44Ref)
 	}
 	ref := &c44Ref{}
 	var runs []map[string]int
 	for _, desc := range []bool{false, true} {
-		f := c44New(c44Cfg{nIDs: st.cfg.nIDs, ipvs: st.cfg.ipvs, pol: st.cfg.pol})
+		f := c44New(c44Cfg{nIDs: st.cfg.nIDs, ipvs: st.cfg.ipvs, pol: st.cfg.pol, names3: st.cfg.names3})
 		for j := 0; j < len(st.live); j++ {
 			i := j
 			if desc {
@@ -599,8 +670,11 @@ func (st *c44State) refWinners() *c44Ref {
 			}
 		}
 		w := map[string]int{}
-		for _, n := range c44Names {
+		for _, n := range st.names() {
 			w[n], _ = f.owner(n)
+		}
+		if !desc {
+			ref.dispatch = f.dispatchTree()
 		}
 		c44Close(f)
 		runs = append(runs, w)
@@ -657,7 +731,7 @@ func c44Check(st *c44State, hist []c44Ev) []hbfs.Fail {
 		expNames[n] = true
 	}
 	active := map[types.WorkloadEndpointID]*proto.WorkloadEndpoint{}
-	for _, name := range c44Names {
+	for _, name := range st.names() {
 		cl := st.claimants(name)
 		own, matches, detail := st.owners(name)
 		inMatches := func(i int) bool {
@@ -736,6 +810,16 @@ func c44Check(st *c44State, hist []c44Ev) []hbfs.Fail {
 			add("dispatch-entries-wrong", fmt.Sprintf("%s = %v, want %v", c.Name, got.Rules, c.Rules))
 		}
 	}
+	if d := st.danglingDispatchTargets(); len(d) > 0 {
+		add("dispatch-chain-jumps-to-missing-chain", fmt.Sprintf("dispatch rules point at chains that are not in the filter table: %v", d))
+	}
+	if ref.problem == "" && len(fails) == 0 {
+		// everything above held, so the interfaces carry the reference owners' state: the whole dispatch tree must
+		// then be identical to the one a fresh manager programs for the same live endpoints
+		if got := st.dispatchTree(); !reflect.DeepEqual(got, ref.dispatch) {
+			add("dispatch-tree-differs-from-fresh-manager", fmt.Sprintf("dispatch tree %v, fresh manager %v", got, ref.dispatch))
+		}
+	}
 	for n := range st.filter.currentChains {
 		if !expNames[n] {
 			add("unexpected-chain-left-in-filter-table", n)
@@ -743,7 +827,7 @@ func c44Check(st *c44State, hist []c44Ev) []hbfs.Fail {
 	}
 	for n := range st.rt.currentRoutesByClass[routetable.RouteClassLocalWorkload] {
 		known := false
-		for _, x := range c44Names {
+		for _, x := range st.names() {
 			known = known || x == n
 		}
 		if !known && len(st.routes(n)) > 0 {
@@ -794,7 +878,7 @@ func c44Key(st *c44State) string {
 	}
 	sort.Strings(parts)
 	fmt.Fprintf(&sb, "filter{%s} ", strings.Join(parts, ";"))
-	for _, n := range c44Names {
+	for _, n := range st.names() {
 		fmt.Fprintf(&sb, "rt[%s]=%v ", n, st.routes(n))
 	}
 	parts = parts[:0]
@@ -840,7 +924,7 @@ func c44Spec(cfg c44Cfg, name string, depth int, graph bool) *hbfs.Spec[*c44Stat
 				return "mid-batch"
 			}
 			var parts []string
-			for _, n := range c44Names {
+			for _, n := range st.names() {
 				o, _ := st.owner(n)
 				parts = append(parts, fmt.Sprintf("%s:claim%v->e%d rt=%d", n, st.claimants(n), o, len(st.routes(n))))
 			}
@@ -891,6 +975,7 @@ func TestVerif_C44(t *testing.T) {
 					cfg.base = bn
 				}
 			}
+			cfg.names3 = strings.Contains(d.Spec, "names3")
 			fails, err := hbfs.Replay(c44Spec(cfg, d.Spec, 99, false), d.History)
 			if err != nil {
 				c.ToolError(err.Error())
@@ -945,6 +1030,11 @@ func TestVerif_C44(t *testing.T) {
 		}
 		// 4. IPVS mark chains on (endpoint-mark dispatch is part of the dispatch state)
 		hbfs.Explore(c, c44Spec(c44Cfg{nIDs: 3, ipvs: true}, "wep-atomic-ipvs-3ids-graph", c.Pick(6, 20), true))
+		// 4b. three interface names of which two share a sub-prefix: child dispatch chains appear / disappear / reappear
+		hbfs.Explore(c, c44Spec(c44Cfg{nIDs: 3, names3: true}, "wep-atomic-names3-graph", c.Pick(4, 20), true))
+		hbfs.Explore(c, c44Spec(c44Cfg{nIDs: 3, names3: true, base: "tree3"}, "wep-atomic-names3-base-tree3-graph", c.Pick(3, 6), true))
+		hbfs.Explore(c, c44Spec(c44Cfg{nIDs: 3, names3: true, ipvs: true, base: "tree3"}, "wep-atomic-names3-ipvs-base-tree3-graph", c.Pick(3, 6), true))
+		hbfs.Explore(c, c44Spec(c44Cfg{nIDs: 3, names3: true, batched: true, base: "tree3"}, "wep-batched-names3-base-tree3-graph", c.Pick(3, 5), true))
 		// 5. endpoints with a reference-counted policy-group chain
 		hbfs.Explore(c, c44Spec(c44Cfg{nIDs: 3, pol: true}, "wep-atomic-pol-3ids-graph", c.Pick(6, 20), true))
 		if c.Thorough() {
